@@ -1,4 +1,5 @@
 import Amgcl.Model.Primitives
+import Amgcl.Model.Kernels
 /-!
 # CPR two-stage preconditioner (C18) — mirrors preconditioner/cpr.hpp
 
@@ -192,9 +193,11 @@ def fppScalar (A : CRS K) (n B activeRows : Nat) : CRS K × Bool × Bool :=
    (List.range np).any (fun ip => (ps ip).w.isNone && !(ps ip).zeroPivot),
    (List.range np).any (fun ip => (ps ip).zeroPivot))
 
-/-- `partial_update(K, update_transfer_ops)` for scalar input: the global preconditioner is rebuilt from `K`
-(so `S->system_matrix()` is `K`), `Fpp` optionally; `App`, the pressure preconditioner and `Scatter` stay. -/
-def partialUpdateScalar (st : State K) (A : CRS K) (B activeRows : Nat) (upd : Bool) : State K :=
+/-- `partial_update(K, update_transfer_ops)` for scalar input: the rows of the copy of `K` are sorted (3c80f38), the
+global preconditioner is rebuilt from it (so `S->system_matrix()` is the sorted copy), `Fpp` optionally; `App`, the
+pressure preconditioner and `Scatter` stay. -/
+def partialUpdateScalar (st : State K) (A0 : CRS K) (B activeRows : Nat) (upd : Bool) : State K :=
+  let A := sortRows A0
   if upd then
     let f := fppScalar A st.n B activeRows
     { st with AS := A, Fpp := f.1, uninit := f.2.1, zeroPivot := f.2.2 }
@@ -262,8 +265,9 @@ def initBlock (A : CRS (Blk K)) (B activeRows : Nat) : State K :=
     uninit := (List.range np).any (fun i => (bw i).2.1),
     zeroPivot := (List.range np).any (fun i => (bw i).2.2) }
 
-/-- `partial_update` for block input -/
-def partialUpdateBlock (st : State K) (A : CRS (Blk K)) (B activeRows : Nat) (upd : Bool) : State K :=
+/-- `partial_update` for block input (the copy of `K` is row-sorted first) -/
+def partialUpdateBlock (st : State K) (A0 : CRS (Blk K)) (B activeRows : Nat) (upd : Bool) : State K :=
+  let A := sortRows A0
   if upd then
     let N := if activeRows = 0 then st.n / B else activeRows
     let bw : Nat → Array K × Bool × Bool := fun i => blockWeights A B i
